@@ -174,7 +174,7 @@ func TestC17WireIndependence(t *testing.T) {
 		}
 		alt, err := asn1.Marshal(spki{algID{k.Algorithm.ASN1(), params}, asn1.BitString{Bytes: k.Data, BitLength: 8 * len(k.Data)}})
 		if err != nil {
-			t.Fatalf("harness: %v", err)
+			t.Fatalf("%s", ev.Tag(fmt.Sprintf("harness: %v", err)))
 		}
 		pk, err := x509.ParsePublicKey(alt)
 		if err == nil {
